@@ -139,6 +139,7 @@ func runC03(c *Ctx) {
 	c.r0323(pk, fd)
 	c.r0325(pk)
 	c.r0326(pk, fd)
+	c.r0327(pk, fd)
 	// an attribute wrongly marked boolean loses its value: the table check of C17, restricted to the attribute traits
 	// an attribute value that holds code decodes to the same value only if the code was minified as the browser reads it
 	c.alsoUnder(map[string]string{"R11.9": "R03.16"}, nil, func() { c.r119() })
@@ -2008,4 +2009,47 @@ func (c *Ctx) r0326(pk *packages.Package, fd *ast.FuncDecl) {
 	sort.Strings(names)
 	c.R.Check(p == nil && len(flags) > 0, rule, "html.Minifier.Minify/case html.CommentToken/a dropped comment asks whether it follows the pre start tag", c.pos(clause), "every path that writes nothing tests one of "+strings.Join(names, ", "),
 		"a comment is dropped without a look at the pre start tag in front of it: "+pathStr(c, g, p)+" — `<pre><!--c-->\\nfoo</pre>` → `<pre>\\nfoo</pre>`, whose first newline the parser ignores (the text loses a line break)")
+}
+
+// R03.27: only attributes that have a default value are dropped for having it.
+func (c *Ctx) r0327(pk *packages.Package, fd *ast.FuncDecl) {
+	const rule = "R03.27"
+	c.R.Rule(rule, "html.(*Minifier).Minify drops an attribute whose value is its default (`method=get`, `type=text` on input …): the condition with `!o.KeepDefaultAttrVals` whose body continues with the next attribute. Every attribute named in that condition (a comparison of attr.Hash with a hash constant) is in ref.HTMLAttrsWithDefault — the attributes for which HTML defines a missing-value default that equals leaving the attribute out. formmethod, formenctype, formaction … have none: on a submit button they override what the form says, `<form method=post><button formmethod=get>` without the attribute posts")
+	info := pk.TypesInfo
+	n := 0
+	ast.Inspect(fd.Body, func(z ast.Node) bool {
+		ifs, ok := z.(*ast.IfStmt)
+		if !ok || !strings.Contains(nospace(str(ifs.Cond)), "!o.KeepDefaultAttrVals") || len(ifs.Body.List) == 0 {
+			return true
+		}
+		if bs, ok := ifs.Body.List[len(ifs.Body.List)-1].(*ast.BranchStmt); !ok || bs.Tok != token.CONTINUE {
+			return true
+		}
+		ast.Inspect(ifs.Cond, func(q ast.Node) bool {
+			be, ok := q.(*ast.BinaryExpr)
+			if !ok || be.Op != token.EQL {
+				return true
+			}
+			for _, pr := range [][2]ast.Expr{{be.X, be.Y}, {be.Y, be.X}} {
+				if nospace(str(pr[0])) != "attr.Hash" {
+					continue
+				}
+				id, ok := ast.Unparen(pr[1]).(*ast.Ident)
+				if !ok {
+					continue
+				}
+				k, isConst := info.Uses[id].(*types.Const)
+				if !isConst || k.Pkg() != pk.Types {
+					continue
+				}
+				n++
+				name := strings.ToLower(strings.ReplaceAll(k.Name(), "_", "-"))
+				c.R.Check(ref.HTMLAttrsWithDefault[name], rule, "html.Minifier.Minify/default value of "+name+" may be dropped", c.pos(be), name+" has a missing-value default",
+					"the attribute "+name+" is dropped when it has a certain value, but HTML defines no default for it that equals leaving it out: `<form method=post><button formmethod=get formaction=/search>` loses formmethod and posts")
+			}
+			return true
+		})
+		return true
+	})
+	c.R.Floor(rule, "attributes with a default value comparison", n, 7)
 }
